@@ -24,10 +24,10 @@ CLAIMS = {
          'a run-time pattern outside the modelled fragment), or raises at one of the residual sites enumerated in the Lean definition `residual`. Every other '
          'raise site of the model is unreachable: no match group read as a string is None or missing (all 50 call sites: delimiter, class-name, marker, '
          'term, definition and template groups, for every block table a session can hold), no params[0] / opt[0] / match[1][0] / match[0][0] of a line, list '
-         'or non-paragraph block rule indexes an empty string, the reader is never read at end of input, the stack of open list ids is never popped when empty, the quote captured by the quote pattern '
+         'or non-paragraph block rule indexes an empty string, the reader is never read at end of input, the stack of open list ids is never popped when empty, int() accepts the digits of every $n, the quote captured by the quote pattern '
          'is a non-empty quote of the table, the close tag of a block definition is never None. Also: options never raise; an ill-formed replacement regex is '
          'reported; the fragmenting loop terminates for every pattern. Residual (decided by the correspondence check, which requires both sides to raise the '
-         'same kind of exception or none): the placeholder queue, int() on $n digits, three `m is not None` assertions and match[0][0] of a paragraph '
+         'same kind of exception or none): the placeholder queue, three `m is not None` assertions and match[0][0] of a paragraph '
          '(need completeness of the matcher), the filter groups of a re-compiled default replacement pattern.',
     note=COMMON_NOTE + 'Partial: the footprint theorem is a proof for the model with the residual sites named; totality on those sites, the Python recursion limit '
          'and memory are exploration (stress stream, correspondence). F5 is an open known finding (known_findings.json).',
